@@ -152,8 +152,7 @@ def _find_def(tree, qualname):
         found = None
         for child in ast.iter_child_nodes(node):
             if isinstance(child, (ast.FunctionDef, ast.AsyncFunctionDef, ast.ClassDef)) and child.name == part:
-                found = child
-                break
+                found = child  # the last definition wins (earlier ones are @overload stubs)
         if found is None:
             return None
         node = found
